@@ -243,7 +243,11 @@ addresses per family. non-trivial = >= 2 addresses with >= 2 different behaviour
     }
 
     fn cases_per_worker(tier: Tier) -> u32 {
-        tier.pick(10, 40)
+        tier.pick(10, 150)
+    }
+
+    fn max_shrink_iters() -> u32 {
+        24
     }
 
     fn exhaustive(tier: Tier) -> bool {
